@@ -28,6 +28,14 @@ type Property interface {
 	Exec(line string) string
 }
 
+// FindingClassifier is optionally implemented by a Property whose known
+// findings cannot be recognised by a regex on the protocol line: it returns the
+// id of the known finding (an entry of known_findings.json with status "known")
+// that fully explains this disagreement, or "".
+type FindingClassifier interface {
+	ClassifyMismatch(line, goOut, leanOut string) string
+}
+
 // Gen is handed to Property.Generate.
 type Gen struct {
 	R     *Rand
@@ -259,11 +267,23 @@ func Main(p Property) {
 		}
 		if goOut[i] != leanOut[i] {
 			m := mismatch{Line: c.line, Go: goOut[i], Lean: leanOut[i], Class: c.class, Origin: c.origin}
+			if fc, ok := p.(FindingClassifier); ok {
+				if id := fc.ClassifyMismatch(c.line, goOut[i], leanOut[i]); id != "" {
+					for _, f := range findings {
+						if f.ID == id {
+							m.Finding = id
+							seenFinding[id]++
+						}
+					}
+				}
+			}
 			for _, f := range findings {
-				if matchRe(f.LineRegex, c.line) && matchRe(f.GoRegex, goOut[i]) {
+				if m.Finding != "" {
+					break
+				}
+				if f.LineRegex != "" && matchRe(f.LineRegex, c.line) && matchRe(f.GoRegex, goOut[i]) {
 					m.Finding = f.ID
 					seenFinding[f.ID]++
-					break
 				}
 			}
 			mism = append(mism, m)
